@@ -514,6 +514,8 @@ Section S3Stmt.
     (* the side conditions *)
     unfold TranslateForDefs.loop_ok in Hok. rewrite Hl in Hok.
     apply andb_true_iff in Hok. destruct Hok as [Hok Hside]. apply andb_true_iff in Hok. destruct Hok as [Hrb Hbody_ok].
+    apply andb_true_iff in Hrb. destruct Hrb as [Hfixok Hrb].
+    pose proof (fix_ok_spec cic afuel i bound body lo_s L Hfixok Hl) as Hfixeq.
     destruct (live_block cic afuel body L) as [Lb|] eqn:Elb; [|discriminate Hside].
     set (A := assigned_block cic body) in *. set (S0 := sinter A (sunion (exposed_uses cic body) lo_s)) in *.
     cbv zeta in Hside.
@@ -540,7 +542,7 @@ Section S3Stmt.
     apply guard_some in Hg. destruct Hg as (_ & -> & ->).
     apply bind_some in Hfor. destruct Hfor as (lo_body & st_l & nl & nl' & Hlb & Hfor & ->).
     apply lift_some in Hlb. destruct Hlb as (Efix & -> & ->).
-    rewrite <- live_for_fixpoint, Hl in Efix. inversion Efix; subst lo_body. clear Efix.
+    rewrite Hfixeq in Efix. inversion Efix; subst lo_body. clear Efix.
     apply bind_some in Hfor. destruct Hfor as (lv & ste & nlv & nlv' & Hlv & Hfor & ->).
     apply uniq_some in Hlv. destruct Hlv as (Hlv & ->).
     apply bind_some in Hfor. destruct Hfor as (ps & stf & nps & nps' & Hps & Hfor & ->).
